@@ -122,6 +122,7 @@ struct Emitter {
       o["callee"] = fname(F);
       o["calleeq"] = F->getQualifiedNameAsString();
       o["callee_def"] = defLoc(F);
+      o["callee_decl"] = declId(F);
       o["callee_in_root"] = inRoot(SM.getExpansionLoc(F->getLocation())) || (F->getDefinition() && inRoot(F->getDefinition()->getLocation()));
       if (auto *M = dyn_cast<CXXMethodDecl>(F)) {
         o["virtual"] = M->isVirtual();
@@ -229,6 +230,7 @@ struct Emitter {
       o["generic"] = X->isGenericLambda();
       o["fn"] = fname(X->getCallOperator());
       o["fnloc"] = loc(X->getCallOperator()->getLocation());
+      o["fndecl"] = declId(X->getCallOperator());
       o["mutable"] = X->isMutable();
       json::Array caps;
       auto init = X->capture_init_begin();
@@ -272,6 +274,7 @@ struct Emitter {
       o["classfull"] = rname(X->getConstructor()->getParent());
       o["ctor"] = fname(X->getConstructor());
       o["ctor_def"] = defLoc(X->getConstructor());
+      o["ctor_decl"] = declId(X->getConstructor());
       o["copy"] = X->getConstructor()->isCopyConstructor();
       o["move"] = X->getConstructor()->isMoveConstructor();
       o["elidable"] = X->isElidable();
